@@ -541,6 +541,9 @@ func init() {
 			if r.SetSize("lints_traced_to_execute") < len(Inv)*8/10 {
 				gates = append(gates, fmt.Sprintf("only %d of %d lints were traced down to their rule body", r.SetSize("lints_traced_to_execute"), len(Inv)))
 			}
+			if r.Counters["deprecated_wrapper_comparisons"] < 1000 {
+				gates = append(gates, "deprecated-wrapper comparison did not run")
+			}
 			if r.SetSize("probe_combinations") < 500 {
 				gates = append(gates, "probe-lint product covered too little")
 			}
